@@ -10,13 +10,16 @@ def run(chk):
         "progressive type checking lets `f!(.x)` deliver a wrong-typed value to resolve, which must yield an error. R03f: the call builder's progressive type check compares parameter.kind() with the argument's own unmodified kind and records every partial match. "
         "R03c (documented return kinds): the Value variants a function's resolve can return — read from the MIR by classifying the producers of the returned "
         "value (P-RET: Value::X constructions, From/Into<Value> conversions by source type, results of local helpers; an operand handed back unchanged is "
-        "'unknown' and never reported) — are inside the kinds `Function::return_kind()` declares. Undecided: element kinds of returned collections, the "
+        "'unknown' and never reported) — are inside the kinds `Function::return_kind()` declares. R03h (wrong-typed run-time arguments): the value of a parameter whose declared kind is "
+        "restricted never reaches a kind-agnostic conversion (Value::to_string_lossy, coerce_to_bytes, Display) — in resolve or in a stdlib helper it is handed "
+        "to — on a path without a dominating kind check (try_*/as_*/match on the variant). Undecided: element kinds of returned collections, the "
         "argument-dependent refinement in type_def, semantic correctness.")
     M = sr.function_model(chk.facts)
     sr.rule_keyword_agreement(chk, "R03a", M)
     sr.rule_coercion_unwrapped(chk, "R03d", M)
     sr.rule_progressive_type_check(chk, "R03f")
     rule_return_kinds(chk, "R03c", M)
+    sr.rule_restricted_args_checked(chk, "R03h", M)
 
 
 VARIANT_BIT = {"Bytes": 1 << 1, "Integer": 1 << 2, "Float": 1 << 3, "Boolean": 1 << 4, "Object": 1 << 5, "Array": 1 << 6, "Timestamp": 1 << 7,
